@@ -40,6 +40,6 @@ for f in sorted(glob.glob("/verif/seeded/*/meta.json")):
         if not ok:
             lost.append(os.path.basename(d))
     finally:
-        sh("git -C /repo checkout -- .")
+        sh("git -C /repo checkout -- . && git -C /repo clean -fdq")
 sh("git checkout -- evidence", cwd="/verif")
 print("lost:", lost)
